@@ -86,3 +86,69 @@ VERIF_HARNESS(c12_b1_teardown) {
 #endif
   VERIF_REACH("B1 end");
 }
+
+/* C12-B1s: teardown of a SERVER side. One endpoint with one idle server session (ref 0 from the application's point of view) that is
+ * still referenced by a pending async entry (the handler parked the request with coap_register_async) and/or an observation-free
+ * resource table. "Exactly one session-deleted event per server session" and "everything released" must hold at teardown too. */
+#ifndef WITH_SRV_ASYNC
+#define WITH_SRV_ASYNC 1
+#endif
+static int b1s_del_events, b1s_other_events;
+static coap_session_t *b1s_sess;
+static int
+b1s_event(coap_session_t *session, const coap_event_t event) {
+  if (event == COAP_EVENT_SERVER_SESSION_DEL && session == b1s_sess) b1s_del_events++;
+  else b1s_other_events++;
+  return 0;
+}
+int coap_netif_available_ep(coap_endpoint_t *ep) { (void)ep; return 1; }
+static int b1s_ep_closed;
+void coap_netif_close_ep(coap_endpoint_t *ep) { (void)ep; b1s_ep_closed++; }
+
+VERIF_HARNESS(c12_b1_teardown_server) {
+  VERIF_IN_BUF(tok, 4);
+  coap_context_t *ctx;
+  coap_endpoint_t *ep;
+  coap_session_t *s;
+  ne_init();
+  ctx = (coap_context_t *)coap_malloc_type(COAP_CONTEXT, sizeof(coap_context_t));
+  VERIF_ASSUME(ctx != NULL);
+  memcpy(ctx, &ne_ctx, sizeof(*ctx));
+  ctx->handle_event = b1s_event;
+#ifdef COAP_EPOLL_SUPPORT
+  ctx->epfd = -1;
+  ctx->eptimerfd = -1;
+#endif
+  ep = coap_malloc_endpoint();
+  VERIF_ASSUME(ep != NULL);
+  memset(ep, 0, sizeof(*ep));
+  ep->context = ctx;
+  ep->proto = COAP_PROTO_UDP;
+  ctx->endpoint = ep;
+  s = (coap_session_t *)coap_malloc_type(COAP_SESSION, sizeof(coap_session_t));
+  VERIF_ASSUME(s != NULL);
+  ne_init_session(s, COAP_PROTO_UDP);
+  s->type = COAP_SESSION_TYPE_SERVER;
+  s->context = ctx;
+  s->endpoint = ep;
+  s->ref = 0;                           /* idle server session: nobody but the table knows it */
+  s->sock.lfunc[COAP_LAYER_SESSION].l_close = b1_close;
+  memset(&s->addr_hash, 0, sizeof(s->addr_hash));
+  SESSIONS_ADD(ep->sessions, s);
+  b1s_sess = s;
+  b1s_del_events = b1s_other_events = b1s_ep_closed = 0;
+  closed_calls = 0;
+#if WITH_SRV_ASYNC
+  {
+    coap_pdu_t *req = ne_make_pdu(COAP_MESSAGE_CON, 1, 0x1003, tok, 4);
+    coap_async_t *a = coap_register_async_lkd(s, req, 0);
+    VERIF_ASSERT(a != NULL && s->ref == 1, "B1s an async entry holds one session reference");
+    coap_delete_pdu(req);
+  }
+#endif
+  coap_free_context_lkd(ctx);
+  VERIF_ASSERT(b1s_del_events == 1, "B1s teardown raises exactly one session-deleted event for the server session");
+  VERIF_ASSERT(closed_calls == 1, "B1s the server session's transport is closed exactly once during teardown");
+  VERIF_ASSERT(b1s_ep_closed == 1, "B1s the endpoint socket is closed exactly once");
+  VERIF_REACH("B1s end");
+}
